@@ -158,6 +158,7 @@ func init() {
 				return false, "nack callback for an unknown sequence number"
 			})
 
+		checkNilFuncFields(c, "C19") // "asked for nacks": the nack callback is nil for records registered without one
 		// 4. the relay
 		checkRelay(c)
 
@@ -582,7 +583,7 @@ func checkProbeNode(c *Ctx, prop string) {
 			if answered {
 				c.Check(prop+"/probe/health-on-success", ruleH, e.Pos, arg == "-1" || strings.HasPrefix(arg, "zero") || arg == "0", "answered probe applies delta "+arg)
 			} else {
-				c.Check(prop+"/probe/health-on-local-error", ruleH, e.Pos, arg == "-1" || strings.HasPrefix(arg, "zero") || arg == "0", "local error applies delta "+arg)
+				c.Check(prop+"/probe/health-on-local-error", ruleH, e.Pos, strings.HasPrefix(arg, "zero") || arg == "0", "a probe that ended without an answer (its ping was never sent: local encode / send failure) applies delta "+arg+": the score falls although nothing was acknowledged")
 			}
 		}
 	}
